@@ -34,7 +34,19 @@ impl ResolvedCalendarFields {
         overflow: ArithmeticOverflow,
         resolve_type: ResolutionType,
     ) -> TemporalResult<Self> {
-        let era_year = EraYear::try_from_partial_date(partial_date)?;
+        let era_year = if resolve_type == ResolutionType::MonthDay
+            && partial_date.calendar.is_iso()
+            && partial_date.year.is_none()
+            && partial_date.era.is_none()
+            && partial_date.era_year.is_none()
+        {
+            // An ISO month-day needs no year: the day is judged in the reference year.
+            let mut with_reference_year = partial_date.clone();
+            with_reference_year.year = Some(1972);
+            EraYear::try_from_partial_date(&with_reference_year)?
+        } else {
+            EraYear::try_from_partial_date(partial_date)?
+        };
         if partial_date.calendar.is_iso() {
             let month_code = resolve_iso_month(partial_date, overflow)?;
             let day = resolve_day(partial_date.day, resolve_type == ResolutionType::YearMonth)?;
